@@ -336,8 +336,29 @@ func (w *Worker) WantSample(label string) bool {
 
 // Fail records a violation of class cls. build is only called when the
 // violation is going to be stored.
-func (w *Worker) Fail(cls string, build func() *Violation) {
+func (w *Worker) Fail(cls string, build func() *Violation) { w.FailF(cls, "", build) }
+
+// FailF is Fail with the finding id known up front: a violation that a
+// 'known:' line of KNOWN_FINDINGS.txt lists is recorded (one example) but does
+// not count towards the early-abort limit.
+func (w *Worker) FailF(cls string, finding string, build func() *Violation) {
 	r := w.R
+	if finding != "" {
+		if _, ok := r.known[r.Prop+"/"+finding]; ok {
+			r.mu.Lock()
+			r.byClass["known:"+finding]++
+			first := r.byClass["known:"+finding] == 1
+			r.mu.Unlock()
+			if first || r.Replay != nil {
+				v := build()
+				v.Property, v.Tier, v.Seed, v.Stage, v.Index, v.Class, v.Finding = r.Prop, r.Tier, r.Seed, w.Stage, w.Idx, cls, finding
+				r.mu.Lock()
+				r.viols = append(r.viols, v)
+				r.mu.Unlock()
+			}
+			return
+		}
+	}
 	n := atomic.AddInt64(&r.nviol, 1)
 	r.mu.Lock()
 	r.byClass[cls]++
@@ -345,6 +366,9 @@ func (w *Worker) Fail(cls string, build func() *Violation) {
 	r.mu.Unlock()
 	if store || r.Replay != nil {
 		v := build()
+		if finding != "" && v.Finding == "" {
+			v.Finding = finding
+		}
 		v.Property = r.Prop
 		v.Tier = r.Tier
 		v.Seed = r.Seed
